@@ -1,7 +1,406 @@
-(* C01 - placeholder *)
-From FA.Base Require Import PyAst Value Eval.
+(* C01 - A fluent query means what the user's Python chain computes.
+   Only statements here; proofs live in Proofs/PipelineFacts.v and Proofs/PipelineSem.v.
+
+   [query W item ch term] (Model/Pipeline.v) is the AST that value() hands to the executor for the chain [ch] of
+   Select / Where / SelectMany calls on a dataset of [item]s (class table, registered functions and callbacks [W]),
+   followed by the optional result-format terminal: each lambda acquired (callable: Capture.parse_callable on its
+   recovered source and the closure snapshot; string / ast: as it is), lowered by Sugar.sugar, followed by
+   TypeFollow.stream_op, wrapped as Op(parent with the callback MetaData, lambda) - node names and argument orders read
+   from the tables regenerated from object_stream.py -, cleaned by MetaData.remove_empty.
+   [backend_passes fuel q] is ext, then agg, then simplify (the order the back ends use).
+   [direct B ops ch data] is what Python computes when it runs the chain on the in-memory sequence [data]: map /
+   filter / concat-map, each lambda evaluated under its own captured values.  [eval B ops [] q] is the reference
+   LINQ / list semantics (Base/Eval.v) for a backend [B]; "for every dataset" is the quantification over [B] and [data]
+   with [dataset B data] (= EventDataset() denotes [data]).
+
+   WHAT IS PROVED OUTRIGHT
+     passes_preserve_meaning_ext_agg  the method-form pass followed by the aggregate pass preserves the value of every
+                                      query (from C17 and C19; [ops_kw_free]: operator method calls carry no keywords).
+     remove_empty_preserves_meaning   value()'s cleaning preserves the value of every query (new here).
+     one_operator_call_sound          a single modelled operator call maps "parent evaluates to l" to "the new stream
+                                      evaluates to what the direct combinator computes", given the two refinements.
+     operator_chain_means_direct      chains of ANY length and operator order whose lambdas are given as strings / ast
+                                      objects in the grammar of C10 (possibly with comprehensions and data-class sugar:
+                                      the grammar is required of the lowered body), on an untyped dataset, through an
+                                      optional terminal and value(): the query evaluates to [direct].  No hypothesis
+                                      about any component is left: C06 ([sugar_sem_all]) and C10
+                                      ([untyped_passthrough_general]) discharge them.
+     captured_literals_chain_means_direct   the same with Python callables among the lambdas, when their captured
+                                      variables are plain literals (closure hiding globals) and their bodies are in the
+                                      first-order fragment of C04 ([fragc]): capture_sound is discharged there from
+                                      CaptureSem.sem_engine / rw_ok_all, both halves of parse_callable.
+   WHAT IS PROVED RELATIVE TO NAMED HYPOTHESES ABOUT COMPONENT MODELS (each is a statement about a model, not the code)
+     query_means_chain                for every chain (callables, typed datasets): relative to
+        capture_sound B ops    :  Capture.parse_callable refines the meaning of a lambda under its captured values
+                                  (C04 capture_freezes_partial / C05 inline_sem_partial prove it on fragments only;
+                                  helpers are meant by call: [direct] sends a call of a captured function to the backend);
+        follow_sound B ops W   :  TypeFollow.stream_op refines the meaning of the body it rewrites (default filling,
+                                  callback rewrites: true only for backends that read calls as the class table declares
+                                  them) and attaches literal dictionaries (C07 / C09 are partial);
+     passes_preserve_meaning          ext, agg, simplify: relative to
+        simp_ok B ops fuel     :  Simplify.simplify preserves values (C02 proves every rewrite rule and alpha-renaming,
+                                  not the composition by the fuel-indexed traversal).
+     fluent_query_end_to_end          operator_chain_means_direct followed by the three passes, relative to simp_ok only.
+   Backend conventions used: [md_identity] (MetaData(s, d) denotes s), [terminals_ok] (a result terminal denotes the
+   stream it is given).
+   NOT FORMALISED HERE: "source text + closure snapshot = the Python callable" (C03 / C04's correspondence); floats. *)
+From FA.Base Require Import PyAst Value Eval Traverse.
+From FA.Gen Require Import Tables TablesStream TablesTypes.
 From FA.Model Require Import TypeDefs Pipeline.
-From FA.Proofs Require Import PipelineFacts PipelineSem.
-Theorem op_node_select : forall src lam, op_node OpSelect src lam = Some (function_call "Select" [src; lam]).
-Proof. exact op_node_select. Qed.
-Print Assumptions op_node_select.
+From FA.Model Require Capture Sugar TypeFollow MetaData ExtCalls Aggregate.
+From FA.Proofs Require Import Refine CaptureSem TypeFollowUntyped PipelineFacts PipelineSem PipelineCapture.
+
+(* ---------------- the backend passes ---------------- *)
+
+Theorem passes_preserve_meaning_ext_agg :
+  forall (B : backend) q q',
+    ExtCalls.ops_kw_free ext_default_ops q = true ->
+    Aggregate.agg (ExtCalls.ext q) = Some q' ->
+    forall E v, eval B ext_default_ops E q = Some v -> eval B ext_default_ops E q' = Some v.
+Proof. exact ext_agg_sem. Qed.
+Print Assumptions passes_preserve_meaning_ext_agg.
+
+Theorem passes_preserve_meaning :
+  forall (B : backend) fuel q q',
+    simp_ok B ext_default_ops fuel ->
+    ExtCalls.ops_kw_free ext_default_ops q = true ->
+    backend_passes fuel q = Some q' ->
+    forall E v, eval B ext_default_ops E q = Some v -> eval B ext_default_ops E q' = Some v.
+Proof. exact passes_sem. Qed.
+Print Assumptions passes_preserve_meaning.
+
+(* ---------------- value() ---------------- *)
+
+Theorem remove_empty_preserves_meaning :
+  forall (B : backend) (ops : list string), md_identity B ->
+    forall e e', MetaData.remove_empty e = Some e' ->
+    forall E v, eval B ops E e = Some v -> eval B ops E e' = Some v.
+Proof. exact remove_sem. Qed.
+Print Assumptions remove_empty_preserves_meaning.
+
+(* ---------------- one operator call ---------------- *)
+
+Theorem one_operator_call_sound :
+  forall (B : backend) (ops : list string) (W : world),
+    is_op ops "Select" = true -> is_op ops "Where" = true -> md_identity B ->
+    forall k q item s q' t' l l',
+      step W k (q, item) s = POk (q', t') ->
+      eval B ops [] q = Some (VList l) ->
+      run_stage B ops s l = Some l' ->
+      acquire_sound B ops s ->
+      (forall p b b0 b1, st_src s = Lambda [p] b ->
+         acquire_lambda (st_acq s) (Lambda [p] b) = Capture.Ok (Lambda [p] b0) -> Sugar.sugar b0 = Sugar.Ok b1 ->
+         follow_sound_at B ops W item (st_op s) p b1) ->
+      eval B ops [] q' = Some (VList l').
+Proof. exact step_sound. Qed.
+Print Assumptions one_operator_call_sound.
+
+(* ---------------- chains ---------------- *)
+
+Theorem operator_chain_means_direct :
+  forall (B : backend) (ops : list string) (W : world),
+    is_op ops "Select" = true -> is_op ops "Where" = true ->
+    md_identity B -> terminals_ok B -> ft_plain (w_ft W) ->
+    forall ch term q data r,
+      dataset B data ->
+      plain_chain W TAny ch = true ->
+      query W TAny ch term = POk q ->
+      direct B ops ch data = Some r ->
+      eval B ops [] q = Some (VList r).
+Proof. exact operator_chain_means_direct_x. Qed.
+Print Assumptions operator_chain_means_direct.
+
+Theorem captured_literals_chain_means_direct :
+  forall (B : backend) (ops : list string) (W : world),
+    is_op ops "Select" = true -> is_op ops "Where" = true ->
+    md_identity B -> terminals_ok B -> ft_plain (w_ft W) ->
+    forall ch term q data r,
+      dataset B data ->
+      lit_chain W TAny ch ->
+      query W TAny ch term = POk q ->
+      direct B ops ch data = Some r ->
+      eval B ops [] q = Some (VList r).
+Proof. exact captured_literals_chain_means_direct_x. Qed.
+Print Assumptions captured_literals_chain_means_direct.
+
+(* the instance of capture_sound that is proved *)
+Theorem capture_sound_on_literals :
+  forall (B : backend) (ops : list string) ce p b b0,
+    lit_env ce -> fragc b ->
+    Capture.parse_callable ce (Lambda [p] b) = Capture.Ok (Lambda [p] b0) ->
+    forall v, refines (eval B ops ((p, v) :: captured (AcqCallable ce)) b) (eval B ops [(p, v)] b0).
+Proof. exact capture_sound_lit. Qed.
+Print Assumptions capture_sound_on_literals.
+
+Theorem query_means_chain :
+  forall (B : backend) (ops : list string) (W : world),
+    is_op ops "Select" = true -> is_op ops "Where" = true ->
+    md_identity B -> terminals_ok B ->
+    capture_sound B ops -> follow_sound B ops W ->
+    forall item ch term q data r,
+      dataset B data ->
+      query W item ch term = POk q ->
+      direct B ops ch data = Some r ->
+      eval B ops [] q = Some (VList r).
+Proof. exact query_means_chain_x. Qed.
+Print Assumptions query_means_chain.
+
+Theorem fluent_query_end_to_end :
+  forall (B : backend) (W : world) (fuel : nat),
+    md_identity B -> terminals_ok B -> ft_plain (w_ft W) -> simp_ok B ext_default_ops fuel ->
+    forall ch term q q' data r,
+      dataset B data ->
+      plain_chain W TAny ch = true ->
+      query W TAny ch term = POk q ->
+      ExtCalls.ops_kw_free ext_default_ops q = true ->
+      backend_passes fuel q = Some q' ->
+      direct B ext_default_ops ch data = Some r ->
+      eval B ext_default_ops [] q' = Some (VList r).
+Proof. exact end_to_end_x. Qed.
+Print Assumptions fluent_query_end_to_end.
+
+(* ---------------- what the tables of object_stream.py make the model emit (pins) ---------------- *)
+
+Example operators_emit :
+  forall src lam,
+    op_node OpSelect src lam = Some (Call (Name "Select") [src; lam] [] []) /\
+    op_node OpWhere src lam = Some (Call (Name "Where") [src; lam] [] []) /\
+    op_node OpSelectMany src lam = Some (Call (Name "SelectMany") [src; lam] [] []) /\
+    md_node src lam = Some (Call (Name "MetaData") [src; lam] [] []).
+Proof. intros; repeat split; reflexivity. Qed.
+
+Example terminals_emit :
+  forall src,
+    let cols := TVStrs ["a"; "b"] in
+    let c := List [Const (CStr "a"); Const (CStr "b")] in
+    terminal_node {| t_method := "AsROOTTTree"; t_args := [("filename", TVStr "f.root"); ("treename", TVStr "t"); ("columns", cols)] |} src
+      = Some (Call (Name "ResultTTree") [src; c; Const (CStr "t"); Const (CStr "f.root")] [] []) /\
+    terminal_node {| t_method := "AsParquetFiles"; t_args := [("filename", TVStr "o.pq"); ("columns", TVStr "x")] |} src
+      = Some (Call (Name "ResultParquet") [src; List [Const (CStr "x")]; Const (CStr "o.pq")] [] []) /\
+    terminal_node {| t_method := "AsPandasDF"; t_args := [("columns", cols)] |} src
+      = Some (Call (Name "ResultPandasDF") [src; c] [] []) /\
+    terminal_node {| t_method := "AsAwkwardArray"; t_args := [("columns", TVStrs [])] |} src
+      = Some (Call (Name "ResultAwkwardArray") [src; List []] [] []) /\
+    terminal_nodes = ["ResultPandasDF"; "ResultTTree"; "ResultParquet"; "ResultAwkwardArray"].
+Proof. intros; repeat split; reflexivity. Qed.
+
+(* the operators the lowered comprehensions and the chains need are operators of the method-form semantics *)
+Example ops_known : is_op ext_default_ops "Select" = true /\ is_op ext_default_ops "Where" = true.
+Proof. split; reflexivity. Qed.
+
+(* ---------------- non-vacuity 1: an untyped chain of three ast lambdas, with a comprehension ---------------- *)
+
+Definition rec_ (ks : list string) (vs : list value) : value := VDict (map VStr ks) vs.
+Definition jet_ (pt : Z) (trk : list Z) : value := rec_ ["pt"; "trk"] [VInt pt; VList (map VInt trk)].
+Definition evt_ (met : Z) (jets : list value) : value := rec_ ["met"; "jets"] [VInt met; VList jets].
+Definition data1 : list value :=
+  [evt_ 3 [jet_ 5 [1; -2]%Z; jet_ 1 []]; evt_ 0 []; evt_ 7 [jet_ 9 [4; 0; 6]%Z]].
+
+Definition B1 : backend :=
+  {| attr_sem := fun _ _ => None;
+     meth_sem := fun _ _ _ _ => None;
+     fun_sem := fun name args _ =>
+       if String.eqb name "EventDataset" then match args with [] => Some (VList data1) | _ => None end
+       else match args with v :: _ => Some v | [] => None end |}.
+
+Definition W0 : world := lib_world [] [].
+Definition e_ := Name "e".
+Definition j_ := Name "j".
+Definition t_ := Name "t".
+Definition asis op lam := {| st_op := op; st_acq := AcqAsIs; st_src := lam |}.
+
+(* ds.SelectMany("lambda e: e.jets").Where("lambda j: j.pt > 2")
+     .Select("lambda j: (j.pt, [t * 2 for t in j.trk if t > 0])").AsAwkwardArray("col") *)
+Definition ch3 : chain :=
+  [asis OpSelectMany (Lambda ["e"] (Attr e_ "jets"));
+   asis OpWhere (Lambda ["j"] (Compare (Attr j_ "pt") [CGt] [Const (CInt 2)]));
+   asis OpSelect (Lambda ["j"] (Tuple [Attr j_ "pt";
+       ListComp (BinOp BMult t_ (Const (CInt 2))) [CompFor t_ (Attr j_ "trk") [Compare t_ [CGt] [Const (CInt 0)]] false]]))].
+Definition term3 := Some {| t_method := "AsAwkwardArray"; t_args := [("columns", TVStr "col")] |}.
+
+Definition q3 : expr :=
+  Call (Name "ResultAwkwardArray")
+    [Call (Name "Select")
+       [Call (Name "Where")
+          [Call (Name "SelectMany") [Call (Name "EventDataset") [] [] []; Lambda ["e"] (Attr e_ "jets")] [] [];
+           Lambda ["j"] (Compare (Attr j_ "pt") [CGt] [Const (CInt 2)])] [] [];
+        Lambda ["j"]
+          (Tuple [Attr j_ "pt";
+                  Call (Attr (Call (Attr (Attr j_ "trk") "Where") [Lambda ["t"] (Compare t_ [CGt] [Const (CInt 0)])] [] []) "Select")
+                       [Lambda ["t"] (BinOp BMult t_ (Const (CInt 2)))] [] []])] [] [];
+     List [Const (CStr "col")]] [] [].
+
+Definition r3 : list value := [VTuple [VInt 5; VList [VInt 2]]; VTuple [VInt 9; VList [VInt 8; VInt 12]]].
+
+Example B1_meets_backend_hypotheses : md_identity B1 /\ terminals_ok B1 /\ dataset B1 data1 /\ ft_plain (w_ft W0).
+Proof.
+  split; [intros v d kws; reflexivity|]. split; [|split; [reflexivity | exact ft_default_plain]].
+  intros node v args H. unfold terminal_nodes in H. cbn in H.
+  repeat (destruct H as [<- | H]; [reflexivity|]). destruct H.
+Qed.
+
+Example chain3_hypotheses_met :
+  plain_chain W0 TAny ch3 = true /\ query W0 TAny ch3 term3 = POk q3 /\ direct B1 ext_default_ops ch3 data1 = Some r3.
+Proof. repeat split; vm_compute; reflexivity. Qed.
+
+Example chain3_runs : eval B1 ext_default_ops [] q3 = Some (VList r3).
+Proof. vm_compute. reflexivity. Qed.
+
+(* ... and after the three backend passes (ext, agg, simplify: Select / Where / SelectMany fused into one SelectMany) *)
+Example chain3_after_passes :
+  ExtCalls.ops_kw_free ext_default_ops q3 = true /\
+  exists q', backend_passes 400 q3 = Some q' /\ q' <> q3 /\ eval B1 ext_default_ops [] q' = Some (VList r3).
+Proof.
+  split; [vm_compute; reflexivity|]. eexists. split; [vm_compute; reflexivity|].
+  split; [discriminate | vm_compute; reflexivity].
+Qed.
+
+(* the direct semantics is not the built query in disguise: an operator order that matters *)
+Example order_matters :
+  let sel := asis OpSelect (Lambda ["j"] (BinOp BSub j_ (Const (CInt 4)))) in
+  let flt := asis OpWhere (Lambda ["j"] (Compare j_ [CGt] [Const (CInt 0)])) in
+  let jets := [VInt 5; VInt 1] in
+  direct B1 ext_default_ops [sel; flt] jets = Some [VInt 1] /\
+  direct B1 ext_default_ops [flt; sel] jets = Some [VInt 1; VInt (-3)].
+Proof. split; vm_compute; reflexivity. Qed.
+
+(* ---------------- non-vacuity 1b: callables with captured literals (closure g = 3 hides the global g = 100) -------- *)
+
+Definition ce4 : Capture.cenv :=
+  {| Capture.ce_nonlocals := [("g", Capture.CVal (CInt 3))];
+     Capture.ce_globals := [("g", Capture.CVal (CInt 100)); ("flag", Capture.CVal (CBool true))];
+     Capture.ce_attrs := [] |}.
+Definition l_ := Name "l".
+(* ds.Select(lambda e: e.jets.Select(lambda j: j.pt + g)).Where("lambda l: l.Count() > 1").Select(lambda l: (l.First(), g, flag)) *)
+Definition ch4 : chain :=
+  [{| st_op := OpSelect; st_acq := AcqCallable ce4;
+      st_src := Lambda ["e"] (Call (Attr (Attr e_ "jets") "Select") [Lambda ["j"] (BinOp BAdd (Attr j_ "pt") (Name "g"))] [] []) |};
+   asis OpWhere (Lambda ["l"] (Compare (Call (Attr l_ "Count") [] [] []) [CGt] [Const (CInt 1)]));
+   {| st_op := OpSelect; st_acq := AcqCallable ce4;
+      st_src := Lambda ["l"] (Tuple [Call (Attr l_ "First") [] [] []; Name "g"; Name "flag"]) |}].
+
+Example chain4_hypotheses_met : lit_chain W0 TAny ch4.
+Proof.
+  eapply LC_cons; [reflexivity | split; [repeat constructor; simpl; discriminate | repeat constructor] |].
+  intros b0 b1 H1 H2. vm_compute in H1. inversion H1; subst b0; clear H1. vm_compute in H2. inversion H2; subst b1; clear H2.
+  split; [vm_compute; reflexivity|]. intros lam t evs H3. vm_compute in H3. inversion H3; subst; clear H3.
+  eapply LC_cons; [reflexivity | exact I |].
+  intros b0 b1 H1 H2. vm_compute in H1. inversion H1; subst b0; clear H1. vm_compute in H2. inversion H2; subst b1; clear H2.
+  split; [vm_compute; reflexivity|]. intros lam t evs H3. vm_compute in H3. inversion H3; subst; clear H3.
+  eapply LC_cons; [reflexivity | split; [repeat constructor; simpl; discriminate | repeat constructor] |].
+  intros b0 b1 H1 H2. vm_compute in H1. inversion H1; subst b0; clear H1. vm_compute in H2. inversion H2; subst b1; clear H2.
+  split; [vm_compute; reflexivity|]. intros lam t evs H3. vm_compute in H3. inversion H3; subst; clear H3.
+  constructor.
+Qed.
+
+Example chain4_runs :
+  exists q4, query W0 TAny ch4 None = POk q4 /\
+    q4 = Call (Name "Select")
+           [Call (Name "Where")
+              [Call (Name "Select")
+                 [Call (Name "EventDataset") [] [] [];
+                  Lambda ["e"] (Call (Attr (Attr e_ "jets") "Select") [Lambda ["j"] (BinOp BAdd (Attr j_ "pt") (Const (CInt 3)))] [] [])] [] [];
+               Lambda ["l"] (Compare (Call (Attr l_ "Count") [] [] []) [CGt] [Const (CInt 1)])] [] [];
+            Lambda ["l"] (Tuple [Call (Attr l_ "First") [] [] []; Const (CInt 3); Const (CBool true)])] [] [] /\
+    direct B1 ext_default_ops ch4 data1 = Some [VTuple [VInt 8; VInt 3; VBool true]] /\
+    eval B1 ext_default_ops [] q4 = Some (VList [VTuple [VInt 8; VInt 3; VBool true]]).
+Proof. eexists. split; [vm_compute; reflexivity|]. repeat split; vm_compute; reflexivity. Qed.
+
+(* ---------------- non-vacuity 2: a typed dataset, callables with captured values and a helper ---------------- *)
+
+Definition p_ n d := {| p_name := n; p_default := d |}.
+Definition m_pt := {| m_name := "pt"; m_params := [p_ "self" None; p_ "scale" (Some (CInt 1)); p_ "k" (Some (CInt 0))];
+                      m_ret := Some TInt; m_cb := None; m_op := OpStub |}.
+Definition m_jets := {| m_name := "Jets"; m_params := [p_ "self" None; p_ "cut" (Some (CInt 0))];
+                        m_ret := Some (TIter (TCls "Jet" [])); m_cb := None; m_op := OpStub |}.
+Definition c_jet := {| c_name := "Jet"; c_params := []; c_base := None; c_parent := None; c_methods := [m_pt];
+                       c_props := []; c_cb := Some "jetcls"; c_fields := None; c_collection := false |}.
+Definition c_event := {| c_name := "Event"; c_params := []; c_base := None; c_parent := None; c_methods := [m_jets];
+                         c_props := []; c_cb := None; c_fields := None; c_collection := false |}.
+Definition md_j := Dict [Const (CStr "j")] [Const (CInt 1)].
+Definition W2 : world :=
+  {| w_ct := [c_jet; c_event]; w_ft := ft_default;
+     w_cb := [("jetcls", {| cb_md := Some md_j; cb_rw := RwId; cb_ty := TAny |})] |}.
+
+(* a backend that reads calls as the class table declares them: a jet is an integer a, pt(scale=1, k=0) = a*scale + k,
+   an event is the list of its jets, Jets(cut=0) keeps the jets above the cut; the helper h doubles *)
+Definition data2 : list value := [VList [VInt 5; VInt (-1)]; VList []; VList [VInt 2]].
+Definition arg2 (args : list value) (kws : list (string * value)) (i : nat) (name : string) (d : Z) : option Z :=
+  match nth_error args i with
+  | Some (VInt z) => Some z
+  | Some _ => None
+  | None => match lookup name kws with Some (VInt z) => Some z | Some _ => None | None => Some d end
+  end.
+Definition B2 : backend :=
+  {| attr_sem := fun _ _ => None;
+     meth_sem := fun r m args kws =>
+       if String.eqb m "Jets" then
+         match r, arg2 args kws 0 "cut" 0 with
+         | VList js, Some c => Some (VList (filter (fun j => match j with VInt a => (c <? a)%Z | _ => false end) js))
+         | _, _ => None
+         end
+       else if String.eqb m "pt" then
+         match r, arg2 args kws 0 "scale" 1, arg2 args kws 1 "k" 0 with
+         | VInt a, Some s, Some k => Some (VInt (a * s + k))
+         | _, _, _ => None
+         end
+       else None;
+     fun_sem := fun name args _ =>
+       if String.eqb name "EventDataset" then match args with [] => Some (VList data2) | _ => None end
+       else if String.eqb name "h" then match args with [VInt x] => Some (VInt (x * 2)) | _ => None end
+       else match args with v :: _ => Some v | [] => None end |}.
+
+Definition mcall v m args kwn kwv := Call (Attr v m) args kwn kwv.
+(* closure g = 3 hides the module global g = 100; h is a one-line helper `def h(x): return x * 2` *)
+Definition ce2 : Capture.cenv :=
+  {| Capture.ce_nonlocals := [("g", Capture.CVal (CInt 3))];
+     Capture.ce_globals := [("g", Capture.CVal (CInt 100));
+                            ("h", Capture.CFun (Some (Lambda ["x"] (BinOp BMult (Name "x") (Const (CInt 2))))))];
+     Capture.ce_attrs := [] |}.
+
+(* ds.SelectMany(lambda e: e.Jets()).Where("lambda j: j.pt(k=1) > 0").Select(lambda j: j.pt(k=g) + h(j.pt())) *)
+Definition ch2 : chain :=
+  [{| st_op := OpSelectMany; st_acq := AcqCallable ce2; st_src := Lambda ["e"] (mcall e_ "Jets" [] [] []) |};
+   {| st_op := OpWhere; st_acq := AcqAsIs;
+      st_src := Lambda ["j"] (Compare (mcall j_ "pt" [] [Some "k"] [Const (CInt 1)]) [CGt] [Const (CInt 0)]) |};
+   {| st_op := OpSelect; st_acq := AcqCallable ce2;
+      st_src := Lambda ["j"] (BinOp BAdd (mcall j_ "pt" [] [Some "k"] [Name "g"])
+                                         (Call (Name "h") [mcall j_ "pt" [] [] []] [] [])) |}].
+
+Definition pt_ (s k : Z) := mcall j_ "pt" [Const (CInt s); Const (CInt k)] [] [].
+Definition md_ src := Call (Name "MetaData") [src; md_j] [] [].
+Definition q2 : expr :=
+  Call (Name "Select")
+    [md_ (md_ (Call (Name "Where")
+                 [md_ (Call (Name "SelectMany")
+                         [Call (Name "EventDataset") [] [] []; Lambda ["e"] (mcall e_ "Jets" [Const (CInt 0)] [] [])] [] []);
+                  Lambda ["j"] (Compare (pt_ 1 1) [CGt] [Const (CInt 0)])] [] []));
+     Lambda ["j"] (BinOp BAdd (pt_ 1 3) (BinOp BMult (pt_ 1 0) (Const (CInt 2))))] [] [].
+
+Example typed_chain_builds :
+  query W2 (TCls "Event" []) ch2 None = POk q2 /\ direct B2 ext_default_ops ch2 data2 = Some [VInt 18; VInt 9].
+Proof. split; vm_compute; reflexivity. Qed.
+
+Example typed_chain_runs :
+  md_identity B2 /\ dataset B2 data2 /\
+  eval B2 ext_default_ops [] q2 = Some (VList [VInt 18; VInt 9]) /\
+  exists q', backend_passes 400 q2 = Some q' /\ eval B2 ext_default_ops [] q' = Some (VList [VInt 18; VInt 9]).
+Proof.
+  split; [intros v d kws; reflexivity|]. split; [reflexivity|]. split; [vm_compute; reflexivity|].
+  eexists. split; vm_compute; reflexivity.
+Qed.
+
+(* refusals and failures are explicit results, with the stage and the component *)
+Example refusals_are_explicit :
+  (* a captured None cannot be sent *)
+  query W0 TAny [{| st_op := OpSelect;
+                    st_acq := AcqCallable {| Capture.ce_nonlocals := [("c", Capture.CVal CNone)]; Capture.ce_globals := []; Capture.ce_attrs := [] |};
+                    st_src := Lambda ["e"] (Name "c") |}] None = PFail Refused 0 "follow" /\
+  (* Where needs a boolean *)
+  query W0 TAny [asis OpSelect (Lambda ["e"] e_); asis OpWhere (Lambda ["e"] (Attr e_ "x"))] None = PFail Refused 1 "follow" /\
+  (* a comprehension over a tuple target *)
+  query W0 TAny [asis OpSelect (Lambda ["e"] (ListComp e_ [CompFor (Tuple [e_; j_]) (Attr e_ "x") [] false]))] None
+    = PFail Refused 0 "sugar" /\
+  (* not a lambda *)
+  query W0 TAny [asis OpSelect (Name "f")] None = PFail Crashed 0 "capture".
+Proof. repeat split; vm_compute; reflexivity. Qed.
